@@ -74,7 +74,8 @@ CHECKS = {
             "(at several container positions), on a recursive type grammar and on types inferred from values; max_union_len is an "
             "unconstrained solver integer. Asserted: no exception, the result admits everything the input admitted (witness values stay "
             "members), and without the documented trigger the type is unchanged. A second member alphabet (Dict/DefaultDict, tuples of "
-            "three lengths, empty containers of several kinds, members containing unions) is explored in both member orders.",
+            "three lengths, empty containers of several kinds, members containing unions) is explored in both member orders. One long-lived rewriter "
+            "instance is also fed a stream of short-lived unions under an adversarial model of id() (recycled numbers).",
             TRUST + "The structural 'admits' relation and the trigger predicates are part of the trusted oracle.", "DESIGN.md#C07"),
     "C08": (True, "model_checking",
             "symbolic execution of encode/decode on tape-decoded types, inferred types (k symbolic) and call traces (CrossHair+z3); struct_eq and byte-identical-JSON oracles",
